@@ -474,6 +474,9 @@ def check_c17(prop, tier, seed):
     from . import eng_cprop, eng_decor, eng_exitstack, eng_groupby, eng_handles, eng_lruconc, eng_simplecm, eng_tee  # noqa: PLC0415
 
     def only_foreign(sig, d):
+        if sig.startswith("X01/") and isinstance(d.get("cfg"), dict) and d["cfg"].get("ccancel"):
+            # what the loop throws at a suspended user awaitable has to arrive there, unchanged and at once
+            return "C17/" + sig.split("/")[1] + "/thrown-exception-not-passed-to-the-user-awaitable"
         return ("C17/" + sig.split("/", 1)[1]) if ("foreign-suspension" in sig or "suspends-without" in sig) else None
 
     engines = [("tee", eng_tee, "C09"), ("lruconc", eng_lruconc, "C11"), ("cprop", eng_cprop, "C12"), ("decorator", eng_decor, "C15"),
